@@ -19,6 +19,7 @@ type Term struct {
 	Name string   // symbol name, or literal text
 	str  string
 	QVars [][2]string // forall / exists: bound variables (name, sort)
+	hq    int8        // memo of hasQuant: 0 unknown, 1 no, 2 yes
 }
 
 const (
@@ -175,6 +176,32 @@ func Not(a *Term) *Term {
 	}
 	if a.Op == "not" {
 		return a.Args[0]
+	}
+	// negation normal form above quantifiers, so that assumed / goal quantifiers are visible to the
+	// skolemisation and instantiation passes
+	if hasQuant(a) {
+		switch a.Op {
+		case "forall":
+			return Exists(a.QVars, Not(a.Args[0]))
+		case "exists":
+			return Forall(a.QVars, Not(a.Args[0]))
+		case "and":
+			var xs []*Term
+			for _, x := range a.Args {
+				xs = append(xs, Not(x))
+			}
+			return Or(xs...)
+		case "or":
+			var xs []*Term
+			for _, x := range a.Args {
+				xs = append(xs, Not(x))
+			}
+			return And(xs...)
+		case "=>":
+			if len(a.Args) == 2 {
+				return And(a.Args[0], Not(a.Args[1]))
+			}
+		}
 	}
 	return App("not", SBool, a)
 }
@@ -583,6 +610,9 @@ func Select(a, i *Term) *Term {
 	}
 	if cur.Op == "constarr" {
 		return cur.Args[0]
+	}
+	if cur.Op == "ite" && len(cur.Args) == 3 {
+		return Ite(cur.Args[0], Select(cur.Args[1], i), Select(cur.Args[2], i))
 	}
 	return App("select", es, cur, i)
 }
